@@ -172,7 +172,7 @@ func (p *Packer) Pack(src string, w io.Writer) (*Meta, error) {
 	}
 
 	// Walk the tree of files.
-	err = filepath.Walk(src, p.packWalkFn(src, src, src, tarW, meta, ignoreRules))
+	err = filepath.Walk(src, p.packWalkFn(src, src, src, tarW, meta, ignoreRules, nil))
 	if err != nil {
 		return nil, err
 	}
@@ -190,7 +190,7 @@ func (p *Packer) Pack(src string, w io.Writer) (*Meta, error) {
 	return meta, nil
 }
 
-func (p *Packer) packWalkFn(root, src, dst string, tarW *tar.Writer, meta *Meta, ignoreRules *ignorefiles.Ruleset) filepath.WalkFunc {
+func (p *Packer) packWalkFn(root, src, dst string, tarW *tar.Writer, meta *Meta, ignoreRules *ignorefiles.Ruleset, walking []string) filepath.WalkFunc {
 	return func(path string, info os.FileInfo, err error) error {
 		if err != nil {
 			return err
@@ -290,7 +290,22 @@ func (p *Packer) packWalkFn(root, src, dst string, tarW *tar.Writer, meta *Meta,
 			// If the target is a directory we can recurse into the target
 			// directory by calling the packWalkFn with updated arguments.
 			if resolved.info.IsDir() {
-				return filepath.Walk(resolved.absTarget, p.packWalkFn(root, resolved.absTarget, archivePath, tarW, meta, ignoreRules))
+				// Refuse to walk into a directory that is being walked
+				// already, or that contains one that is: the same link
+				// would be met again and the walk would never end.
+				realTarget, err := filepath.EvalSymlinks(resolved.absTarget)
+				if err != nil {
+					return fmt.Errorf("failed to resolve directory %q: %w", resolved.absTarget, err)
+				}
+				for _, dir := range walking {
+					if rel, err := filepath.Rel(realTarget, dir); err == nil && rel != ".." && !strings.HasPrefix(rel, ".."+string(filepath.Separator)) {
+						return &IllegalSlugError{
+							Err: fmt.Errorf("invalid symlink (%q -> %q) leads back into a directory being packed", path, resolved.target),
+						}
+					}
+				}
+				walking := append(walking[:len(walking):len(walking)], realTarget)
+				return filepath.Walk(resolved.absTarget, p.packWalkFn(root, resolved.absTarget, archivePath, tarW, meta, ignoreRules, walking))
 			}
 
 			// Anything but a directory or a regular file (a fifo, a device, a
